@@ -1029,7 +1029,12 @@ class Decode(Codec):
     canaries = (('utf8 payload decoded with pickle', "    if encoder == 'utf8':\n        return data.decode('utf')", "    if encoder == 'utf8':\n        return pickle_loads(data)", ''),)
 
 
-ROUTING_UNITS = [HandleRequest, AddRoute, Codec, Decode]
+from contracts.ctors import stores      # noqa: E402
+AppInit = stores('C18', F, 'SocketApplication.__init__', [], {'_routes': ('const', {})},
+                 canaries_=())
+AppInit.__doc__ = """SocketApplication.__init__: every application object gets its OWN, empty route table (add_route / handle_request read self._routes: a table shared at class level
+would let two applications in one process answer each other's paths)."""
+ROUTING_UNITS = [HandleRequest, AddRoute, Codec, Decode, AppInit]
 
 
 # ================================================================ named-pipe transport: _Pipe
